@@ -73,6 +73,12 @@ type deferred struct {
 	fnval Val
 }
 
+type namedDef struct {
+	block  *ssa.BasicBlock
+	val    Val
+	isAddr bool
+}
+
 type Frame struct {
 	fn      *ssa.Function
 	vals    map[ssa.Value]Val
@@ -92,6 +98,8 @@ type Frame struct {
 	static    map[string]Val
 	named     map[string]Val
 	namedAddr map[string]Val
+	namedDefs map[string][]namedDef
+	curBlock  *ssa.BasicBlock
 	parent    *Frame
 }
 
@@ -118,6 +126,7 @@ type Exec struct {
 	inlined   map[string]bool
 	noInline  bool
 	topFrame     *Frame
+	quantDepth   int
 	wantLiveness bool
 	livenessTag  []string
 }
@@ -259,6 +268,9 @@ func (x *Exec) storeVal(st *State, p Val, v Val) {
 // assumeTypeInv adds the representation invariants of a value (slice header
 // sanity, references allocated before now) guarded by the path condition.
 func (x *Exec) assumeTypeInv(st *State, v Val) {
+	if x.quantDepth > 0 {
+		return // terms may mention bound variables
+	}
 	ls := leavesOf(v.T)
 	if len(ls) != len(v.L) {
 		return
@@ -344,8 +356,10 @@ func (x *Exec) strEq(a, b string) string {
 	if b == "str.empty" {
 		return eq(app("slen", a), bvLit(0, 64))
 	}
-	x.smt.Assert(implies(eq(app("slen", a), bvLit(0, 64)), eq(a, "str.empty")))
-	x.smt.Assert(implies(eq(app("slen", b), bvLit(0, 64)), eq(b, "str.empty")))
+	if x.quantDepth == 0 {
+		x.smt.Assert(implies(eq(app("slen", a), bvLit(0, 64)), eq(a, "str.empty")))
+		x.smt.Assert(implies(eq(app("slen", b), bvLit(0, 64)), eq(b, "str.empty")))
+	}
 	return eq(a, b)
 }
 
@@ -677,6 +691,7 @@ func (x *Exec) execBody(fr *Frame, entry *State) {
 		edges := in[b]
 		var st *State
 		li := loops[b]
+		fr.curBlock = b
 		if li != nil {
 			st = x.enterLoop(fr, b, li, edges)
 		} else {
@@ -856,6 +871,9 @@ func (x *Exec) enterLoop(fr *Frame, b *ssa.BasicBlock, li *loopInfo, edges []edg
 				bv = *bv.Dyn
 			}
 			ref := bv.L[0]
+			if isInterface(bv.T) {
+				ref = app("iref", bv.L[0])
+			}
 			hit := false
 			for hk := range x.heapSort {
 				if matches(hk, e.region) {
@@ -940,6 +958,9 @@ func (x *Exec) backEdge(fr *Frame, from *ssa.BasicBlock, li *loopInfo, st *State
 	for phi, v := range newVals {
 		fr.vals[phi] = v
 	}
+	savedBlock := fr.curBlock
+	fr.curBlock = b
+	defer func() { fr.curBlock = savedBlock }()
 	for _, inv := range x.loopInvariants(fr, li) {
 		g := x.evalSpecBool(fr, st, fr.entry, inv.Expr, nil)
 		label := x.edgeLabel(from)
@@ -963,6 +984,7 @@ func (x *Exec) edgeLabel(from *ssa.BasicBlock) string {
 }
 
 func (x *Exec) execBlock(fr *Frame, b *ssa.BasicBlock, st *State, in map[*ssa.BasicBlock][]edgeState, loops map[*ssa.BasicBlock]*loopInfo) {
+	fr.curBlock = b
 	for _, instr := range b.Instrs {
 		if _, ok := instr.(*ssa.Phi); ok {
 			continue
